@@ -28,6 +28,7 @@ import (
 	"github.com/influxdata/influxdb/models"
 	"github.com/influxdata/influxdb/query"
 	"github.com/influxdata/influxdb/services/meta"
+	"github.com/influxdata/influxdb/services/storage"
 	"github.com/influxdata/influxdb/storage/reads"
 	"github.com/influxdata/influxdb/storage/reads/datatypes"
 	"github.com/influxdata/influxdb/tcp"
@@ -46,6 +47,11 @@ type shardPlan struct {
 	Group  int      `json:"group"`
 	RP     int      `json:"rp,omitempty"` // retention policy 0 ("rp") or 1 ("rp1")
 	Times  []int64  `json:"times"` // timestamps = row ids (unique in the world)
+	// store-read / SHOW worlds only: Big > 0 adds a string field "s" of Big bytes to every point
+	// of measurement "m" (response messages are flushed every 64 KiB); Tagged adds one series
+	// per triple (measurement "t<a>", tag "k<b>" = "v<c>")
+	Big    int      `json:"big,omitempty"`
+	Tagged [][3]int `json:"tagged,omitempty"`
 }
 
 type worldDesc struct {
@@ -274,6 +280,7 @@ type caseState struct {
 	counts  map[string]int // node|ids -> calls so far
 	calls   []callRec
 	pendErr map[string]int // node|ids -> error replies the store still has to produce
+	showErr map[uint64]bool // nodes whose store fails MeasurementNames / TagKeys / TagValues
 }
 
 func newCaseState(plan func(node uint64, ids []uint64, idx int, typ byte) outcome) *caseState {
@@ -575,22 +582,57 @@ func (s nodeStore) ShardGroup(ids []uint64) tsdb.ShardGroup {
 	return sg
 }
 
+func (s nodeStore) showErr() bool {
+	cs := s.n.cur()
+	return cs != nil && cs.showErr[s.n.id]
+}
+
+func (s nodeStore) MeasurementNames(ctx context.Context, auth query.FineAuthorizer, database string, retentionPolicy string, cond influxql.Expr) ([][]byte, error) {
+	if s.showErr() {
+		return nil, errInjected
+	}
+	return s.Store.MeasurementNames(ctx, auth, database, retentionPolicy, cond)
+}
+
+func (s nodeStore) TagKeys(ctx context.Context, auth query.FineAuthorizer, shardIDs []uint64, cond influxql.Expr) ([]tsdb.TagKeys, error) {
+	if s.showErr() {
+		return nil, errInjected
+	}
+	return s.Store.TagKeys(ctx, auth, shardIDs, cond)
+}
+
+func (s nodeStore) TagValues(ctx context.Context, auth query.FineAuthorizer, shardIDs []uint64, cond influxql.Expr) ([]tsdb.TagValues, error) {
+	if s.showErr() {
+		return nil, errInjected
+	}
+	return s.Store.TagValues(ctx, auth, shardIDs, cond)
+}
+
 // errStore is the storage Store of a node for ReadFilter/ReadGroup
-type rfStore struct{ n *node }
+type rfStore struct {
+	n    *node
+	real *storage.Store
+}
 
 func (s rfStore) ReadFilter(ctx context.Context, req *datatypes.ReadFilterRequest) (reads.ResultSet, error) {
 	ids, _ := ctx.Value(coordinator.ShardIDsKey).([]uint64)
 	if cs := s.n.cur(); cs != nil && cs.takeErr(s.n.id, ids) {
 		return nil, errInjected
 	}
-	return nil, nil
+	if req.ReadSource == nil || s.real == nil {
+		return nil, nil
+	}
+	return s.real.ReadFilter(ctx, req)
 }
 func (s rfStore) ReadGroup(ctx context.Context, req *datatypes.ReadGroupRequest) (reads.GroupResultSet, error) {
 	ids, _ := ctx.Value(coordinator.ShardIDsKey).([]uint64)
 	if cs := s.n.cur(); cs != nil && cs.takeErr(s.n.id, ids) {
 		return nil, errInjected
 	}
-	return nil, nil
+	if req.ReadSource == nil || s.real == nil {
+		return nil, nil
+	}
+	return s.real.ReadGroup(ctx, req)
 }
 
 // localStore is the TSDBStore of the coordinating node's ClusterShardMapper: records the
@@ -731,6 +773,17 @@ func loadShard(st *tsdb.Store, sp shardPlan) {
 				models.Fields{"v": float64(t), fmt.Sprintf("f%d", sp.ID): float64(1)}, time.Unix(0, t)))
 		}
 	}
+	if sp.Big > 0 {
+		big := strings.Repeat("x", sp.Big)
+		for _, t := range sp.Times {
+			pts = append(pts, models.MustNewPoint(measName(0), models.NewTags(nil), models.Fields{"s": big}, time.Unix(0, t)))
+		}
+	}
+	for i, tg := range sp.Tagged {
+		pts = append(pts, models.MustNewPoint(fmt.Sprintf("t%d", tg[0]),
+			models.NewTags(map[string]string{fmt.Sprintf("k%d", tg[1]): fmt.Sprintf("v%d", tg[2])}),
+			models.Fields{"v": float64(1)}, time.Unix(0, int64(sp.Group)*1000+int64(i))))
+	}
 	if err := st.WriteToShard(sp.ID, pts); err != nil {
 		panic(err)
 	}
@@ -797,7 +850,7 @@ func buildWorld(d worldDesc, deadAddr string) *world {
 		mux.Logger = log.New(io.Discard, "", 0)
 		svc := coordinator.NewService(coordinator.NewConfig())
 		svc.TSDBStore = nodeStore{Store: n.store, n: n}
-		svc.Store = rfStore{n: n}
+		svc.Store = rfStore{n: n, real: storage.NewStore(n.store, storeMeta{id: id, data: w.data})}
 		svc.MetaClient = svcMeta{id: id}
 		svc.Server = fakeServer{}
 		svc.HintedHandoff = fakeHH{}
@@ -1822,6 +1875,30 @@ func main() {
 				var d respDesc
 				json.Unmarshal(in.Desc, &d)
 				runResp(o, d, "replay")
+			case "recv":
+				var d recvDesc
+				if err := json.Unmarshal(in.Desc, &d); err != nil {
+					panic(err)
+				}
+				runRecv(o, d, "replay")
+			case "rsraw":
+				var d rsDesc
+				if err := json.Unmarshal(in.Desc, &d); err != nil {
+					panic(err)
+				}
+				runRS(o, d, "replay")
+			case "sread":
+				var d sreadDesc
+				if err := json.Unmarshal(in.Desc, &d); err != nil {
+					panic(err)
+				}
+				runSRead(o, d, "replay")
+			case "show":
+				var d showDesc
+				if err := json.Unmarshal(in.Desc, &d); err != nil {
+					panic(err)
+				}
+				runShow(o, d, "replay")
 			}
 		}
 		return
@@ -1831,6 +1908,11 @@ func main() {
 	designedPartialRound(o)
 	designedMultiSource(o)
 	designedTruncated(o)
+	// the stream / SHOW cases draw from their own generators: the query cases of a seed stay the same
+	designedStream(o, f.Tier)
+	designedShow(o)
+	genStream(o, hx.NewRand(f.Seed*7919+17), f.N/3, f.Tier)
+	genShow(o, hx.NewRand(f.Seed*7919+18), f.N/6, f.Tier)
 	perWorld := 40
 	if f.Tier == "thorough" {
 		perWorld = 120
